@@ -246,8 +246,8 @@ impl SwiftField for Field56Intermediary {
                 let field = Field56D::parse(value)?;
                 Ok(Field56Intermediary::D(field))
             }
-            None | Some("") => {
-                // No option letter given: fall back to default parse behavior
+            None => {
+                // No tag information at all (direct API use): fall back to default parse behavior
                 Self::parse(value)
             }
             Some(other) => Err(ParseError::InvalidFormat {
@@ -310,8 +310,8 @@ impl SwiftField for Field56IntermediaryAD {
                 let field = Field56D::parse(value)?;
                 Ok(Field56IntermediaryAD::D(field))
             }
-            None | Some("") => {
-                // No option letter given: fall back to default parse behavior
+            None => {
+                // No tag information at all (direct API use): fall back to default parse behavior
                 Self::parse(value)
             }
             Some(other) => Err(ParseError::InvalidFormat {
